@@ -67,6 +67,12 @@ CQuiesce == Ev("Quiesce") /\ UNCHANGED impl        /\ Logged /\ T.ret = NoSeq /\
 CNext == Reset \/ CNextA \/ CGTLast \/ CGTBatch \/ CGTBegin \/ CGTFinish \/ CPendRel \/ CGiveBack \/ CIdle \/ CStop \/ CQuiesce
 CSpec == TInit /\ [][CNext]_tvars
 
+(* pass P evaluates the property predicates on every recorded state and reports each failure
+   (<<"VIOL", predicate, line>>) without stopping, so that one run finds every failing behaviour *)
+Viol(name, holds) == holds \/ PrintT(<<"VIOL", name, l>>)
+ReportP == /\ Viol("Unique", Unique) /\ Viol("Above", Above) /\ Viol("NoDoubleRelease", NoDoubleRelease)
+           /\ Viol("NoUsedAndReleased", NoUsedAndReleased) /\ Viol("NothingLost", NothingLost)
+
 Progress == Mark(l)
 Accept == PrintHWM
 =============================================================================
